@@ -25,7 +25,9 @@ assert_level_constraint), each against a reference written from the property sta
     an allowed combination" (i.e. every prefix is allowed).
 (3) read_constraints_from_csv against an independent reader of the documented CSV format: an
     exhaustive grid over the kinds of cell (ditto in every column incl. the first, after every
-    kind of cell, on consecutive rows, with comment / blank rows between), seeded random CSV
+    kind of cell, on consecutive rows, with comment / blank rows between; NON-RECTANGULAR files:
+    skipped rows narrower and wider than the table, key rows with cells not written or with
+    extra trailing empty cells, blank lines at the end, no final line end), seeded random CSV
     texts, and the shipped level_constraints.csv.
 (4) the same validator clause on the real level table: every ordered pair of keys, "level" with
     every ordered pair of other keys in each position, seeded random walks (key orders shuffled,
@@ -37,6 +39,7 @@ The reference never calls or copies the code under check.  All bounds are stated
 """
 import ast
 import copy
+import gc
 import itertools
 import multiprocessing
 import operator
@@ -111,9 +114,24 @@ def _pool_map(fn, jobs):
     jobs = list(jobs)
     if NPROC == 1 or len(jobs) <= 1:
         return [fn(j) for j in jobs]
-    ctx = multiprocessing.get_context("fork")
-    with ctx.Pool(NPROC) as pool:
-        return list(pool.imap_unordered(fn, jobs, chunksize=max(1, min(8, len(jobs) // (NPROC * 8)))))
+    if not _POOL:
+        # One pool for the whole check (closed by check_c17): starting a worker costs about a second of CPU because the parent
+        # holds the large imported package.  gc.freeze keeps the workers' garbage collector from walking (and thereby copying)
+        # that inherited heap (measured before: about 1 s user + 1 s system time per worker and pool, nine pools per run).
+        gc.collect()
+        gc.freeze()
+        _POOL.append(multiprocessing.get_context("fork").Pool(NPROC))
+    return list(_POOL[0].imap_unordered(fn, jobs, chunksize=max(1, min(8, len(jobs) // (NPROC * 8)))))
+
+
+_POOL = []
+
+
+def _close_pool():
+    while _POOL:
+        pool = _POOL.pop()
+        pool.terminate()
+        pool.join()
 
 
 # ================================================================================================
@@ -1639,19 +1657,34 @@ def _m_cell(cell, left):
     return ("set", atoms)
 
 
-def _m_read_csv(text):
-    """Independent reader of the documented table format -> list (one per value column) of {key: cell model}."""
-    out = []
-    for row in _csv_records(text):
-        if all((not c.strip()) or c.strip().startswith("#") for c in row):
-            continue  # empty rows and rows of only '#'-prefixed (or empty) cells are skipped
-        while len(out) < len(row) - 1:
-            out.append({})
+ABSENT = ("absent",)  # a column (defined by a wider key row) for which a shorter key row writes no cell
+
+
+def _m_read_csv(text, mark_absent=False):
+    """Independent reader of the documented table format -> list (one per value column) of {key: cell model}.
+
+    Empty rows and rows of only '#'-prefixed (or empty) cells are skipped: they define nothing, whatever their width.  The
+    value columns are those the key rows define: as many as the widest key row has value cells (an empty cell is a cell).
+    What a key row that is shorter than another one means for the columns it does not reach is not documented: by default
+    the key is simply not listed there; with mark_absent the place is marked ABSENT (judged as inconclusive: 'not listed' and
+    'listed with no values' are both accepted by the comparison)."""
+    rows = [row for row in _csv_records(text) if not all((not c.strip()) or c.strip().startswith("#") for c in row)]
+    out = [{} for _ in range(max([len(row) - 1 for row in rows] + [0]))]
+    for row in rows:
         left = None
         for i, cell in enumerate(row[1:]):
             left = _m_cell(cell, left)
             out[i][row[0]] = left
+        if mark_absent:
+            for i in range(max(0, len(row) - 1), len(out)):
+                out[i].setdefault(row[0], ABSENT)
     return out
+
+
+def _keys_differ(rc, mc):
+    """keys of a real column against the model column: every written key, and nothing else but ABSENT-marked ones"""
+    required = set(k for k, cm in mc.items() if cm is not ABSENT and cm != ABSENT)
+    return not (required <= set(rc.keys()) <= set(mc.keys()))
 
 
 def _cell_member(cm, x):
@@ -1682,11 +1715,17 @@ def _compare_csv(ct, real, model, fails, inputs, kindprefix):
                                           "observed": len(real) if isinstance(real, list) else repr(real)})
         return n
     for ci, (rc, mc) in enumerate(zip(real, model)):
-        if sorted(rc.keys()) != sorted(mc.keys()):
+        if not isinstance(rc, dict) or _keys_differ(rc, mc):
             fails.add(kindprefix + "-keys", lambda: {"what": "keys of a column read from the CSV differ", "inputs": dict(inputs, column=ci),
-                                             "expected": sorted(mc.keys()), "observed": sorted(rc.keys())})
+                                             "expected": sorted(k for k, cm in mc.items() if cm != ABSENT), "observed": sorted(rc.keys()) if isinstance(rc, dict) else repr(rc)})
             continue
         for k, cm in mc.items():
+            if cm == ABSENT:
+                # undocumented: a short key row either does not list its key here or lists it with no values
+                if k in rc and (not isinstance(rc[k], ct.ValueSet) or isinstance(rc[k], ct.AnyValue) or list(rc[k])):
+                    fails.add(kindprefix + "-cell", lambda: {"what": "a value column beyond the end of a short key row holds values for its key", "inputs": dict(inputs, column=ci, key=k),
+                                                     "expected": "key not listed, or listed with no values", "observed": repr(rc[k])})
+                continue
             n += 1
             rv = rc[k]
             is_any = isinstance(rv, ct.AnyValue)
@@ -1719,7 +1758,7 @@ def _csv_alias_probe(ct, real, model, fails, inputs, kindprefix, path=None):
     """Every cell of a table read from CSV must be its own set: a distinct marker value is added to every (non-'any') cell,
     then no cell may contain another cell's marker (for big tables: another cell of the same row, where dittos copy).
     With `path`: the file is read again afterwards and must still give what is written in it.  -> cells probed"""
-    if not isinstance(real, list) or len(real) != len(model) or any(sorted(rc.keys()) != sorted(mc.keys()) for rc, mc in zip(real, model)):
+    if not isinstance(real, list) or len(real) != len(model) or any(not isinstance(rc, dict) or _keys_differ(rc, mc) for rc, mc in zip(real, model)):
         return 0  # (already reported by the comparison)
     cells = [(ci, k, rc[k]) for ci, rc in enumerate(real) for k in sorted(rc) if isinstance(rc[k], ct.ValueSet) and not isinstance(rc[k], ct.AnyValue)]
     base = 10 ** 6
@@ -1739,14 +1778,41 @@ def _csv_alias_probe(ct, real, model, fails, inputs, kindprefix, path=None):
     return len(cells)
 
 
+def _csv_semantic_probe(ct, real, model, fails, inputs, kindprefix):
+    """From the statement, on the table read: a combination that names a key no key row has, or (in a file without 'any'
+    cells) gives a key a value that no cell lists, is contained in no column and must not be allowed -- whatever else the
+    file holds (comment rows, blank rows, rows of empty cells of any width define no column)."""
+    if not isinstance(real, list):
+        return 0
+    combos = [{"c17_no_such_key": 0}]
+    if not any(cm[0] == "any" for mc in model for cm in mc.values()):
+        keys = []
+        for mc in model:
+            for k in mc:
+                if k not in keys:
+                    keys.append(k)
+        combos += [{k: 987654321} for k in keys[:3]]
+    for vals in combos:
+        got = ct.is_allowed_combination(real, dict(vals))
+        if got is not False:
+            fails.add(kindprefix + "-spurious-allowed", lambda: {
+                "what": "the table read from the CSV allows a combination that no column written in the file contains",
+                "inputs": dict(inputs, values=vals), "expected": False, "observed": {"is_allowed_combination": got, "table": repr(real)[:600]}})
+            break
+    return len(combos)
+
+
 def _gen_csv(rng):
     """Own writer: a random table in the documented format. -> (text, description of features used)"""
     ncols = rng.randint(1, 5)
     nrows = rng.randint(1, 7)
     eol = rng.choice(["\n", "\r\n"])
     p_ditto = rng.choice([0.2, 0.2, 0.5])  # a third of the files are ditto-heavy
+    ragged = rng.random() < 0.6  # row widths vary independently of the table width
     lines = []
     feats = set()
+    skipped_w = []
+    key_w = []
 
     def q(cell, force=False):
         if force or "," in cell or '"' in cell or rng.random() < 0.15:
@@ -1765,11 +1831,15 @@ def _gen_csv(rng):
         return rng.choice(["TRUE", "FALSE"])
 
     def comment_row():
-        w = rng.randint(1, ncols + 1)
-        cells = [rng.choice(["# note", "#", "# (11.2.1)", "", " "]) for _ in range(w)]
-        if rng.random() < 0.5:
-            cells[0] = "# c"
+        w = rng.randint(1, ncols + 1 + (3 if ragged else 0))
+        if ragged and rng.random() < 0.3:
+            cells = [""] * w  # a row of empty cells only
+        else:
+            cells = [rng.choice(["# note", "#", "# (11.2.1)", "", " "]) for _ in range(w)]
+            if rng.random() < 0.5:
+                cells[0] = "# c"
         feats.add("comment/empty row")
+        skipped_w.append(w)
         return ",".join(q(c) for c in cells)
 
     for r in range(nrows):
@@ -1795,9 +1865,26 @@ def _gen_csv(rng):
                 if k > 1:
                     feats.add("list")
                 cells.append(",".join(token() for _ in range(k)))
+        if ragged:
+            x = rng.random()
+            if x < 0.25:
+                cells = cells[:rng.randint(1, ncols)]  # trailing cells not written
+                feats.add("short key row")
+            elif x < 0.40:
+                cells += [""] * rng.randint(1, 2)
+                feats.add("key row with extra trailing empty cells")
+        if not all((not c.strip()) or c.strip().startswith("#") for c in cells):
+            key_w.append(len(cells))
+        else:
+            skipped_w.append(len(cells))
         lines.append(",".join([q(cells[0])] + [q(c) for c in cells[1:]]))
     while rng.random() < 0.3:
         lines.append(comment_row())
+    if skipped_w and max(skipped_w) > max(key_w + [0]):
+        feats.add("skipped row wider than every key row")
+    while ragged and rng.random() < 0.3:
+        lines.append("")
+        feats.add("blank lines at the end")
     text = eol.join(lines) + (eol if rng.random() < 0.8 else "")
     return text, feats
 
@@ -1829,11 +1916,23 @@ def _grid_cell(kind, pos, var):
     raise ValueError(kind)
 
 
-def _grid_csv(nrows, ncols, code, style):
+_SKIP_ROWS = ([(kind, delta, pos) for kind in ("comment", "empty", "mixed") for delta in (-1, 0, 1, 2, 3) for pos in ("first", "middle", "last")]
+              + [("blank", 0, pos) for pos in ("first", "middle", "last")])
+_TAILS = [(0, True), (0, False), (1, True), (2, True), (1, False)]  # (blank lines after the last row, final line end written)
+
+
+def _grid_csv(nrows, ncols, code, style, row_shapes=None, skip=None, tail=(0, True)):
     """The code-th file of the grid 'every cell of an nrows x ncols table is one of the six kinds of cell'.
     style selects what stands between the key rows (nothing / a comment row / a blank line / a row of empty cells / a row of
-    comment cells), minimal or full quoting, LF or CRLF, a leading comment row, and rotates the spelling of the cells.
-    -> (text, the table written: one {key: content} per value column, [(column, kind of the cell to the left)] of the dittos)"""
+    comment cells; all as wide as the table), minimal or full quoting, LF or CRLF, a leading comment row, and rotates the
+    spelling of the cells.  Non-rectangular files:
+      row_shapes[r]: -1 the last value cell of key row r is not written, +1 / +2 that many extra empty cells are appended;
+      skip = (kind, delta, position): one more skipped row -- 'comment' (every cell '# c'), 'empty' (every cell empty),
+             'mixed' ('# note' then empty cells) of width (widest key row + delta) cells, or a 'blank' line -- as the first
+             row of the file, before the last key row, or after it;
+      tail = (blank lines after the last row, whether the last line is terminated).
+    -> (text, the table written: one {key: content} per value column (ABSENT where a shorter key row writes no cell),
+        [(column, kind of the cell to the left)] of the dittos)"""
     names = _real_key_names()
     sep = style % 5
     quote_all = (style // 5) % 2
@@ -1841,21 +1940,27 @@ def _grid_csv(nrows, ncols, code, style):
     header = (style // 20) % 2
     var0 = style // 40
     lines = []
-    written = [{} for _ in range(ncols)]
+    data_at = []  # index in `lines` of every key row
+    per_row = []  # (key, [contents of the value cells written])
     dittos = []
     if header:
         lines.append("# (11.2.1)" + ",# a" * ncols)
     x = code
+    widest = 1
     for r in range(nrows):
         if r and sep:
             lines.append({1: "# note" + "," * ncols, 2: "", 3: "," * ncols, 4: ",".join(["# c"] * (ncols + 1))}[sep])
         key = names[r % len(names)]
         cells = [key]
+        contents = []
         left = None
         left_kind = "nothing"
+        shape = row_shapes[r] if row_shapes else 0
         for c in range(ncols):
             kind = _GRID_KINDS[x % 6]
             x //= 6
+            if shape < 0 and c >= ncols + shape:
+                continue  # not written
             pos = r * ncols + c
             text, content = _grid_cell(kind, pos, var0 + pos + code)
             if content is None:
@@ -1864,23 +1969,56 @@ def _grid_csv(nrows, ncols, code, style):
             else:
                 left_kind = kind
             left = content
-            written[c][key] = content
+            contents.append(content)
             cells.append(text)
+        for _ in range(max(0, shape)):
+            cells.append("")
+            contents.append(("set", []))
+        widest = max(widest, len(cells))
+        per_row.append((key, contents))
+        data_at.append(len(lines))
         lines.append(",".join(('"' + t.replace('"', '""') + '"') if (quote_all or "," in t or '"' in t) else t for t in cells))
-    return eol.join(lines) + eol, written, dittos
+    if skip is not None:
+        kind, delta, where = skip
+        w = max(1, widest + delta)
+        row = {"comment": ",".join(["# c"] * w), "empty": "," * (w - 1), "mixed": "# note" + "," * (w - 1), "blank": ""}[kind]
+        at = 0 if where == "first" else len(lines) if (where == "last" or not data_at) else data_at[-1]
+        lines.insert(at, row)
+    lines += [""] * tail[0]
+    written = [{} for _ in range(max([len(c) for _, c in per_row] + [0]))]
+    for key, contents in per_row:
+        for ci in range(len(written)):
+            written[ci][key] = contents[ci] if ci < len(contents) else ABSENT
+    return eol.join(lines) + (eol if tail[1] else ""), written, dittos
+
+
+def _ragged_variants(nrows, code, npicks):
+    """(style, row_shapes, skip, tail) of the non-rectangular files written for the code-th table: every combination of
+    row shapes (as written / last cell omitted / +1 / +2 trailing empty cells, per key row), each with npicks (or, npicks <= 0, all 48) skipped
+    rows rotating through kind x width x position, and rotating file endings."""
+    for sc, shapes in enumerate(itertools.product((0, -1, 1, 2), repeat=nrows)):
+        picks = range(len(_SKIP_ROWS)) if npicks <= 0 else [(code * 5 + sc * 7 + i * 17) % len(_SKIP_ROWS) for i in range(npicks)]
+        for i, pk in enumerate(picks):
+            yield (code * 7 + sc * 3 + i * 37) % 200, shapes, _SKIP_ROWS[pk], _TAILS[(code + sc + i) % len(_TAILS)]
 
 
 def _w_csv_grid(job):
-    nrows, ncols, lo, hi, nrot, tmpdir = job  # nrot: number of styles per table (rotating with the table), 0 = all 40 layouts
+    # nrot: number of styles per table (rotating with the table), 0 = all 40 layouts; ragged: 0 rectangular files,
+    # 1 / 3: non-rectangular variants with 2 / 4 skipped rows per combination of row shapes, 2: with every skipped row
+    nrows, ncols, lo, hi, nrot, tmpdir, ragged = job
     ct = _load()
     fails = _Fails()
     n_files = n_cells = n_alias = 0
     ditto_seen = {}
-    path = os.path.join(tmpdir, "g%d_%d_%d_%d.csv" % (nrows, ncols, lo, os.getpid()))
+    path = os.path.join(tmpdir, "g%d_%d_%d_%d_%d.csv" % (nrows, ncols, lo, ragged, os.getpid()))
     for code in range(lo, hi):
-        for style in (range(40) if not nrot else [(code * 7 + i * 37) % 200 for i in range(nrot)]):
-            text, written, dittos = _grid_csv(nrows, ncols, code, style)
-            if _m_read_csv(text) != written:
+        if ragged:
+            variants = _ragged_variants(nrows, code, {1: 2, 2: 0, 3: 4}[ragged])
+        else:
+            variants = ((style, None, None, (0, True)) for style in (range(40) if not nrot else [(code * 7 + i * 37) % 200 for i in range(nrot)]))
+        for style, shapes, skip, tail in variants:
+            text, written, dittos = _grid_csv(nrows, ncols, code, style, shapes, skip, tail)
+            if _m_read_csv(text, mark_absent=True) != written:
                 raise RuntimeError("C17 checker: the independent CSV reader does not read back what the grid writer wrote: %r" % (text,))
             with open(path, "w", encoding="utf-8", newline="") as f:
                 f.write(text)
@@ -1888,10 +2026,16 @@ def _w_csv_grid(job):
             for c, lk in dittos:
                 key = "ditto in the first value column" if c == 0 else "ditto after %s" % lk
                 ditto_seen[key] = ditto_seen.get(key, 0) + 1
+            if skip is not None:
+                key = "skipped %s row %s" % (skip[0], "wider than every key row" if skip[1] > 0 and skip[0] != "blank" else "not wider than the key rows")
+                ditto_seen[key] = ditto_seen.get(key, 0) + 1
+                for sh, label in ((-1, "key rows with the last cell omitted"), (1, "key rows with extra trailing empty cells"), (2, "key rows with extra trailing empty cells")):
+                    ditto_seen[label] = ditto_seen.get(label, 0) + sum(1 for z in shapes if z == sh)
             inputs = {"csv_text": text}
             try:
                 real = ct.read_constraints_from_csv(path)
                 n_cells += _compare_csv(ct, real, written, fails, inputs, "csvgrid")
+                _csv_semantic_probe(ct, real, written, fails, inputs, "csvgrid")
                 n_alias += _csv_alias_probe(ct, real, written, fails, inputs, "csvgrid", path if n_files % 8 == 0 else None)
             except Exception:
                 tb = traceback.format_exc(limit=6)
@@ -1919,7 +2063,7 @@ def _w_csv(job):
     for i in range(lo, hi):
         rng = random.Random(seed * 15485863 + i)
         text, feats = _gen_csv(rng)
-        model = _m_read_csv(text)
+        model = _m_read_csv(text, mark_absent=True)
         path = os.path.join(tmpdir, "t%d.csv" % i)
         with open(path, "w", encoding="utf-8", newline="") as f:
             f.write(text)
@@ -1930,6 +2074,7 @@ def _w_csv(job):
         try:
             real = ct.read_constraints_from_csv(path)
             n_cells += _compare_csv(ct, real, model, fails, inputs, "csv")
+            _csv_semantic_probe(ct, real, model, fails, inputs, "csv")
             _csv_alias_probe(ct, real, model, fails, inputs, "csv", path)
         except Exception:
             fails.add("csv-exception", lambda: {"what": "read_constraints_from_csv raised on a table in the documented format", "inputs": inputs,
@@ -1961,7 +2106,9 @@ def _part_csv(rep, tier, seed):
         "C17.csv.random",
         "SAMPLED (seeded, seed=%d): %d CSV texts from an own writer: 1..5 value columns x 1..7 key rows plus interleaved empty / '#'-comment rows; cells: empty, 'any', ditto "
         "(\", “, ”, \"\" or \" with blanks; in any value column including the first; a third of the files ditto-heavy), or 1..4 comma-separated tokens each a non-negative integer, an inclusive range lo-hi with lo <= hi, TRUE or FALSE; random "
-        "quoting, LF or CRLF; rectangular rows, unique keys. Each file is read by read_constraints_from_csv and by an independent reader of the documented format; compared "
+        "quoting, LF or CRLF; unique keys; in 60%% of the files the row widths vary independently of the table width (comment rows and rows of empty cells up to 3 cells "
+        "wider than the table, key rows with trailing cells not written or with 1..2 extra trailing empty cells, blank lines at the end, last line with or without line end; "
+        "cells a short key row does not write are inconclusive: 'not listed' or 'no values'); is_allowed_combination on the table read must reject an unknown key / an unlisted value. Each file is read by read_constraints_from_csv and by an independent reader of the documented format; compared "
         "cell by cell: AnyValue vs ValueSet, membership on every written/read endpoint +-1 and True/False, and the Python types of the values read (bool vs int); then a "
         "distinct value is added to every cell (no cell may contain another cell's) and the file is read again (must still give what is written)" % (seed, nf),
         nf, False, distinct=nc,
@@ -1969,16 +2116,18 @@ def _part_csv(rep, tier, seed):
         note="distinct = cells compared; files using each feature: %s" % ", ".join("%s: %d" % kv for kv in sorted(feats.items())))
 
     # ---- the grid: every cell of a small table is each kind of cell (ditto in every position, after every kind of cell)
-    grids = [(2, 3, 1), (3, 2, 1), (2, 2, 4), (1, 4, 2), (4, 1, 2), (1, 1, 0)]
+    # (key rows, value columns, layouts per table (0 = all 40), non-rectangular mode (0 = rectangular files))
+    grids = [(2, 3, 1, 0), (2, 2, 4, 0), (1, 4, 2, 0), (4, 1, 2, 0), (1, 1, 0, 0), (2, 2, 0, 1), (1, 2, 0, 2), (0, 1, 0, 2)]
     if thorough:
-        grids = [(2, 3, 4), (3, 2, 4), (2, 2, 0), (1, 4, 0), (4, 1, 0), (1, 1, 0), (1, 5, 2), (5, 1, 2)]
+        grids = [(2, 3, 4, 0), (3, 2, 4, 0), (2, 2, 0, 0), (1, 4, 0, 0), (4, 1, 0, 0), (1, 1, 0, 0), (1, 5, 2, 0), (5, 1, 2, 0),
+                 (2, 2, 0, 3), (1, 2, 0, 2), (1, 3, 0, 2), (3, 1, 0, 2), (0, 1, 0, 2)]
     tmpdir = _scratch_dir()
     try:
         jobs = []
-        for (nr, ncl, nrot) in grids:
+        for (nr, ncl, nrot, ragged) in grids:
             n = 6 ** (nr * ncl)
-            step = max(1, -(-n // (NPROC * (2 if n > 5000 else 1))))
-            jobs += [(nr, ncl, lo, min(n, lo + step), nrot, tmpdir) for lo in range(0, n, step)]
+            step = max(1, -(-n // (NPROC * (2 if n > 5000 or (ragged and n > 1000) else 1))))
+            jobs += [(nr, ncl, lo, min(n, lo + step), nrot, tmpdir, ragged) for lo in range(0, n, step)]
         gf = gc = 0
         dseen = {}
         for (a, b, ds, fl) in _pool_map(_w_csv_grid, jobs):
@@ -1998,10 +2147,18 @@ def _part_csv(rep, tier, seed):
         "leading comment row) with rotating spellings (blanks around cells and after commas). read_constraints_from_csv must return, per value column and key, exactly what was "
         "written (a ditto: the content of the value cell to its left in the same row; in the first value column: nothing), compared as in C17.csv.random; the independent reader "
         "must agree with the writer on every file (else checker error). Then a distinct value is added to every cell read and no cell may contain the value added to another "
-        "one (cells are independent sets, a ditto is a copy); every 8th file is read a second time afterwards and must again give what is written"
-        % (", ".join("%dx%d" % (a, b) for a, b, _ in grids), ", ".join("%dx%d: %s" % (a, b, c or "all") for a, b, c in grids)),
+        "one (cells are independent sets, a ditto is a copy); every 8th file is read a second time afterwards and must again give what is written. NON-RECTANGULAR files (%s): "
+        "every combination of key-row shapes (as written / last value cell not written / 1 / 2 extra trailing empty cells, per key row), each with skipped rows rotating "
+        "through (or running over all of) 48 variants: a row of '#' cells, a row of empty cells, '# note' followed by empty cells -- each 1 cell narrower than, as wide as, "
+        "and 1, 2, 3 cells WIDER than the widest key row -- or a blank line; as the first row of the file, before the last key row, or after it; 0..2 blank lines at the "
+        "end, last line with or without line end; also files with no key row at all. The table read must have exactly the value columns the key rows define (skipped rows "
+        "define none), every written cell as written; where a shorter key row writes no cell for a column, 'key not listed' and 'listed with no values' are both accepted "
+        "(undocumented, inconclusive). Additionally, from the statement: is_allowed_combination on the table read must reject a key no key row has and (files without 'any') "
+        "a value no cell lists"
+        % (", ".join("%dx%d" % (a, b) for a, b, _, rg in grids if not rg), ", ".join("%dx%d: %s" % (a, b, c or "all") for a, b, c, rg in grids if not rg),
+           ", ".join("%dx%d: %s skipped-row variants per shape combination" % (a, b, {1: "2", 2: "all 48", 3: "4"}[rg]) for a, b, _, rg in grids if rg)),
         gf, True, distinct=gc,
-        note="distinct = cells compared; ditto cells by position: %s" % ", ".join("%s: %d" % kv for kv in sorted(dseen.items())))
+        note="distinct = cells compared; files / cells by feature: %s" % ", ".join("%s: %d" % kv for kv in sorted(dseen.items())))
 
     # ---- the shipped level_constraints.csv
     import vc2_conformance
@@ -2023,7 +2180,9 @@ def _part_csv(rep, tier, seed):
         fl.add("levelcsv-exception", lambda: {"what": "read_constraints_from_csv raised on the shipped level_constraints.csv", "inputs": {"csv_file": path},
                                               "expected": "no exception", "observed": tb})
     try:
-        na_ship = _csv_alias_probe(ct, ct.read_constraints_from_csv(path), model, fl, {"csv_file": path}, "levelcsv", path)  # a fresh read, never the live table
+        fresh = ct.read_constraints_from_csv(path)  # a fresh read, never the live table
+        _csv_semantic_probe(ct, fresh, model, fl, {"csv_file": path}, "levelcsv")
+        na_ship = _csv_alias_probe(ct, fresh, model, fl, {"csv_file": path}, "levelcsv", path)
     except Exception:
         na_ship = 0  # (reported above)
     rep.extra_coverage["C17_shipped_csv_cells_probed_for_aliasing"] = na_ship
@@ -2418,10 +2577,13 @@ def check_c17(rep, tier, seed):
                                                  "read_constraints_from_csv) raised", "inputs": {"import": "vc2_conformance.decoder.assertions"},
                                          "expected": "no exception", "observed": tb})
     walls = {}
-    for name, part in (("valueset", _part_valueset), ("tables", _part_tables), ("csv", _part_csv), ("validator_real_table", _part_validator_real)):
-        t0 = time.time()
-        total.merge(part(rep, tier, seed))
-        walls[name] = round(time.time() - t0, 1)
+    try:
+        for name, part in (("valueset", _part_valueset), ("tables", _part_tables), ("csv", _part_csv), ("validator_real_table", _part_validator_real)):
+            t0 = time.time()
+            total.merge(part(rep, tier, seed))
+            walls[name] = round(time.time() - t0, 1)
+    finally:
+        _close_pool()
     rep.extra_coverage["C17_wall_seconds_by_part"] = walls
     _observations(rep)
     for kind in sorted(total.kept):
@@ -2476,12 +2638,16 @@ REGISTER = {
             "values x for which prefix + {key: x} is allowed, probed on the universe + 1 / on one value per class of values the real columns tell apart)",
             "a 'catch-all column' is read as a column with no cells at all (the code comment's 'catch all' rule); a key missing from a non-empty column means the column does not "
             "contain any combination mentioning that key (module docstring: the 'pickleable' example)",
-            "CSV: an independent RFC-4180 reader and an independent reader of the documented cell format; generated files are rectangular, have unique keys, non-negative integers, "
+            "CSV: an independent RFC-4180 reader and an independent reader of the documented cell format; generated files have unique keys, non-negative integers, "
             "ranges with lo <= hi, upper-case TRUE/FALSE, lower-case 'any'; blanks only around whole cells and after the commas of a list; a cell of blanks only and '-5' style "
             "negative numbers are outside the documented format",
+            "CSV files need not be rectangular: skipped rows (blank, only empty cells, only '#'/empty cells) define no column whatever their width; the value columns are those "
+            "of the widest key row (an empty cell is a cell); what a key row shorter than another means for the columns it does not reach is undocumented and judged as "
+            "inconclusive ('key not listed' and 'listed with no values' both accepted, values there are a violation)",
             "a ditto mark ('the same value as the column to their left') is read as the content of the value cell to its left IN THE SAME ROW; in the first value column there is "
             "no such cell and the ditto lists nothing (rows are independent: nothing is ever taken from another row); ditto marks written: \", “, ”, \"\" and \" with blanks",
-            "the CSV grid is exhaustive over the KINDS of cell (empty, any, value, range, list, ditto) of tables up to 2x3 / 3x2 / 1x4 / 4x1, not over their numeric contents; the "
+            "the CSV grid is exhaustive over the KINDS of cell (empty, any, value, range, list, ditto) of tables up to 2x3 / 1x4 / 4x1 (thorough also 3x2, 1x5, 5x1), not over their numeric "
+            "contents; non-rectangular variants on 2x2, 1x2 and 0-row tables (thorough also 1x3, 3x1); the "
             "layouts (separator rows, quoting, line ends, leading comment row, spellings) rotate with the table (the number of layouts per table is in the domain string); generated CSV "
             "files are written to /dev/shm when available",
             "trusted: CPython set/frozenset semantics as the reference model; the csv dialect of the shipped file is plain RFC-4180",
@@ -2493,7 +2659,8 @@ REGISTER = {
                  "ranges bridged by a last atom; the allowed_values_for <=> is_allowed_combination equivalence exhaustively for small tables (<= 2x3 over 0..2/0..3, 3x2), with AnyValue "
                  "cells, missing keys and catch-all columns against the documented semantics; the validator's one-at-a-time acceptance through the real assert_level_constraint on a "
                  "State, for all key orders / repeated / unlisted keys on small substituted tables and for all ordered key pairs, level-triples and seeded walks on the real level "
-                 "table; read_constraints_from_csv against an independent reader on an exhaustive grid of cell kinds (ditto everywhere), seeded random CSVs and the shipped "
+                 "table; read_constraints_from_csv against an independent reader on an exhaustive grid of cell kinds (ditto everywhere; non-rectangular files: skipped rows wider than "
+                 "the table, short and over-long key rows), seeded random CSVs and the shipped "
                  "level_constraints.csv (every cell).",
             note="Not a proof. Not covered: reversed ranges, incomparable mixed types, the ambiguous case of a key re-assigned to another value (counted only), larger tables/universes, "
                  "CSV text outside the documented format.",
